@@ -164,6 +164,9 @@ func verifSameMapping(db *DB, kp *vPool, m *vModel, id string) {
 	exp := m.sortedPresent(kp)
 	keys := db.ListKeys()
 	verifAssert(len(keys) == len(exp), id+".listkeys-count")
+	for i := range keys {
+		_ = append(keys[i], '/', 0xEE) // appending to one returned key must not disturb its neighbours
+	}
 	for i := range exp {
 		verifAssert(len(keys[i]) == len(kp.keys[exp[i]]), id+".listkeys-keylen")
 		verifAssert(verifBytesEq(keys[i], kp.keys[exp[i]]), id+".listkeys-order")
